@@ -457,7 +457,100 @@ def run_families(ctx, module, n_quick, n_thorough, k2_bases_quick):
         if n < N and n < n_quick:
             continue
         ctx.level('structure N<=%d' % n, [job_structure.job(module, n, s, ns) for s in range(ns)])
+    ctx.level('pairs of feature modules x arrangements x backgrounds', [job_pairs.job(module, s, ns) for s in range(ns)])
     nb = len(base_documents())
     ctx.level('deviations k<=1', [job_variants.job(module, b, 1, 0, 1) for b in range(nb)])
     bases = k2_bases_quick if ctx.quick else list(range(nb))
     ctx.level('deviations k<=2 (bases %s)' % bases, [job_variants.job(module, b, 2, s, ns) for b in bases for s in range(ns)])
+
+
+# ---------------------------------------------------------------------------
+# pairs of features: every ordered pair of "feature modules" in four arrangements x four backgrounds
+# (realistic defects often need two constructs to meet: a doc string and a later description, a ragged table and a tag
+#  run, a table-less Examples block before a real one, a background argument and an outline header ...)
+# ---------------------------------------------------------------------------
+def _modules():
+    s = M.step
+    TL = M.tagline
+    mods = []
+    mods.append(('plain', lambda: [M.scenario('plain', [s('g')])]))
+    mods.append(('no-steps', lambda: [M.scenario('empty', [], tags=[TL(['@empty'])])]))
+    mods.append(('description', lambda: [M.scenario('described', [s('g')], desc=[B(''), T('        deep text  '), C('   # inner'), T('\\`\\`\\` \\"\\"\\"'), B('  '), B('')])]))
+    mods.append(('docstring-dq', lambda: [M.scenario('doc1', [s('g', arg=M.doc(['x', ('raw', ' less  '), '  more', '\\"\\"\\"', '\\`\\`\\`', ''], media='json')), s('after', role='and')])]))
+    mods.append(('docstring-bt', lambda: [M.scenario('doc2', [s('g', arg=M.doc(['\\`\\`\\` mid \\"\\"\\"', '"""', '   '], delimiter='```'))])]))
+    mods.append(('table-dups', lambda: [M.scenario('tab1', [s('g', arg=M.table([['a', 'b'], ['a', 'b'], ['', 'a|b']])), s('h', role='when', arg=M.table([['a', 'b']]))])]))
+    mods.append(('outline', lambda: [M.scenario('out <a> <b>', [s('g <a>', arg=M.table([['<a>', '<b>', '<c>']])), s('d', role='and', arg=M.doc(['<a> <b>'], media='<b>'))],
+                                                [M.examples('e', [['a', 'b'], ['1', '2'], ['3', '4']])], outline=True)]))
+    mods.append(('outline-two-tables', lambda: [M.scenario('two <a>', [s('x <a> <b>', role='and')],
+                                                           [M.examples('e1', [['a', 'b'], ['1', '2']], tags=[TL(['@e1', '@dup'])]), M.examples('e2', [['b', 'a'], ['1', '2'], ['2', '1']])],
+                                                           tags=[TL(['@dup'])], outline=True)]))
+    mods.append(('outline-tableless-first', lambda: [M.scenario('tl <a>', [s('x <a>')],
+                                                                [M.examples('none', None, tags=[TL(['@none'])]), M.examples('hdr', [['a']], tags=[TL(['@hdr'])]),
+                                                                 M.examples('real', [['a'], ['1'], ['2']])], outline=True)]))
+    mods.append(('outline-zero-cells', lambda: [M.scenario('zero', [s('x')], [M.examples('z', [[], [], []])], outline=True)]))
+    mods.append(('outline-dup-header', lambda: [M.scenario('dh <a>', [s('x <a>')], [M.examples('d', [['a', 'a', ''], ['1', '2', '3']])], outline=True)]))
+    mods.append(('tags-two-lines', lambda: [M.scenario('tagged', [s('g')], tags=[TL(['@t1', '@t2'], sep='  '), TL(['@t1'], pre=[C('# between tags'), B('')], trailing=' #c')])]))
+    mods.append(('conjunction-first', lambda: [M.scenario('conj', [s('a', role='and'), s('s', kw='* '), s('b', role='but'), s('w', role='when'), s('a2', role='and')]),
+                                               M.scenario('conj-o', [s('b', role='but')], [M.examples('', [['a'], ['1'], ['2']])], outline=True)]))
+    mods.append(('empty-texts', lambda: [M.scenario('', [s('', role='given'), s('', kw='* ')], [], desc=[])]))
+    mods.append(('noise', lambda: [M.scenario('noisy', [s('g', pre=[B(''), C('# c1')]), s('h', role='then', pre=[C('#c2'), B('   ')])], pre=[C('# before scenario'), B('')])]))
+    return mods
+
+
+def _backgrounds():
+    s = M.step
+    return [
+        ('none', lambda: None),
+        ('one-step', lambda: M.background('bg', [s('b')])),
+        ('args-with-placeholders', lambda: M.background('', [s('b <a>', arg=M.table([['<a>', '<b>']])), s('c', role='and', arg=M.doc(['<a>'], media='<b>'))], desc=[T('   bg text')])),
+        ('and-first', lambda: M.background('', [s('x', role='and'), s('y', role='but')])),
+    ]
+
+
+def pair_documents(shard=0, nshards=1):
+    mods = _modules()
+    bgs = _backgrounds()
+    idx = 0
+    for (na, fa) in mods:
+        for (nb, fb) in mods:
+            for (nbg, fbg) in bgs:
+                for arr in range(4):
+                    idx += 1
+                    if idx % nshards != shard:
+                        continue
+                    bg = fbg()
+                    a, b = fa(), fb()
+                    pre = [bg] if bg else []
+                    if arr == 0:
+                        f = M.feature('f', pre + a + b, tags=[M.tagline(['@f', '@dup'])])
+                    elif arr == 1:
+                        f = M.feature('f', pre + a + [M.rule('r', b, tags=[M.tagline(['@r'])])])
+                    elif arr == 2:
+                        rbg = fbg()
+                        f = M.feature('f', [M.rule('r', ([rbg] if rbg else []) + a + b, desc=[T('      rule text')])], tags=[M.tagline(['@f'])])
+                    else:
+                        rbg = fbg()
+                        f = M.feature('f', pre + [M.rule('r1', ([rbg] if rbg else []) + a, tags=[M.tagline(['@r1', '@dup'])]), M.rule('r2', b, tags=[M.tagline(['@r2'])])])
+                    yield (na, nb, nbg, arr), f
+
+
+@worker
+def job_pairs(module, shard, nshards):
+    import importlib
+    mod = importlib.import_module(module)
+    acc = Acc()
+    last = None
+    for key, f in pair_documents(shard, nshards):
+        try:
+            text, exp, r = M.render(f)
+        except (StopIteration, KeyError, IndexError):
+            acc.counters['variants_not_renderable'] += 1
+            continue
+        if not M.roles_ok(r):
+            acc.counters['models_discarded_role_mismatch'] += 1
+            continue
+        mod.check_model(text, exp, r, acc, {'kind': 'text', 'text': text, 'family': 'pairs', 'pair': list(key[:3])})
+        last = text
+    if last is not None:
+        acc.sample({'family': 'feature pairs', 'text': last})
+    return acc
